@@ -72,7 +72,13 @@ pub fn c19(ctx: &Ctx) {
     c19_try_from(ctx);
     let wraps = AtomicU64::new(0);
     (1..=65535u16).into_par_iter().for_each(|p| {
-        let pid = Pid::try_from(p).unwrap();
+        let pid = match guard(|| Pid::try_from(p)) {
+            Ok(Ok(x)) => x,
+            other => {
+                ctx.violation("C19:try_from".into(), format!("Pid::try_from({p}) = {:?}", other), json!({"kind":"pid-try-from","x":p}));
+                return;
+            }
+        };
         // literal oracle: step u times
         let mut fwd = p;
         let mut bwd = p;
